@@ -47,3 +47,20 @@ def csv_utils():
     load()
     from rbql import csv_utils
     return csv_utils
+
+
+def split_function():
+    """Helper-level splitter of the tree, tolerant of refactorings: returns f(line, dlm, policy, preserve) -> (fields, warning) or None.
+    The properties name csv_utils.smart_split / split_quoted_str "when present"; when neither exists only the public reader path decides."""
+    cu = csv_utils()
+    if hasattr(cu, 'smart_split'):
+        return cu.smart_split
+    if hasattr(cu, 'get_polymorphic_split_function'):
+        return lambda line, dlm, policy, preserve: cu.get_polymorphic_split_function(dlm, policy, preserve)(line)
+    if hasattr(cu, 'split_quoted_str'):
+        def f(line, dlm, policy, preserve):
+            if policy in ('quoted', 'quoted_rfc'):
+                return cu.split_quoted_str(line, dlm, preserve)
+            return None
+        return f
+    return None
